@@ -305,7 +305,54 @@ type badRec struct {
 	T   int    `json:"t"`
 }
 
+// tlcJudge has TLC judge independent records (every acceptor module consumes its file record by
+// record; a record's verdict does not depend on the others). Large batches are cut into chunks
+// that are judged by TLC processes running side by side.
 func tlcJudge(module, cfg, file string, recs []interface{}) ([]badRec, TLCResult) {
+	const chunkMin = 1500
+	k := len(recs) / chunkMin
+	if k > 10 {
+		k = 10
+	}
+	if k < 2 {
+		return tlcJudgeOne(module, cfg, file, recs)
+	}
+	size := (len(recs) + k - 1) / k
+	bads := make([][]badRec, k)
+	results := make([]TLCResult, k)
+	var wg sync.WaitGroup
+	for i := 0; i < k; i++ {
+		lo, hi := i*size, (i+1)*size
+		if hi > len(recs) {
+			hi = len(recs)
+		}
+		wg.Add(1)
+		go func(i, lo, hi int) {
+			defer wg.Done()
+			bads[i], results[i] = tlcJudgeOne(module, cfg, file, recs[lo:hi])
+			for j := range bads[i] {
+				bads[i][j].L += lo
+			}
+		}(i, lo, hi)
+	}
+	wg.Wait()
+	var bad []badRec
+	total := results[0]
+	for i := 0; i < k; i++ {
+		bad = append(bad, bads[i]...)
+		if i > 0 {
+			total.Generated += results[i].Generated
+			total.Distinct += results[i].Distinct
+			total.JSONCount += results[i].JSONCount
+			if results[i].Wall > total.Wall {
+				total.Wall = results[i].Wall
+			}
+		}
+	}
+	return bad, total
+}
+
+func tlcJudgeOne(module, cfg, file string, recs []interface{}) ([]badRec, TLCResult) {
 	var tr traceBuf
 	for _, r := range recs {
 		tr.add(r)
